@@ -82,8 +82,8 @@ class Ctx:
         if not cond:
             raise AnalysisBroken(msg)
 
-    def require_count(self, rule, n_min):
-        n = sum(1 for o in self.obs if o.rule == rule)
+    def require_count(self, rule, n_min, but_not_ending=None):
+        n = sum(1 for o in self.obs if o.rule == rule and not (but_not_ending and o.instance.endswith(but_not_ending)))
         if n < n_min:
             raise AnalysisBroken("rule %s matched %d instance(s), fewer than the %d confirmed by hand - "
                                  "anchor moved or idiom not recognised" % (rule, n, n_min))
@@ -175,13 +175,24 @@ def run_property(prop, module, tier, replay=None):
     level = getattr(module, "LEVEL", "other")
     assumptions = list(getattr(module, "ASSUMPTIONS", []))
     checker_cmd = "./check %s --tier %s" % (prop, tier)
+    ctx = None
+    incomplete = None
     try:
         facts = F.extract(ndebug=True)
         ctx = Ctx(prop, tier, facts)
-        module.run(ctx)
+        try:
+            module.run(ctx)
+        except AnalysisBroken as e:
+            # a rule instance that already failed is a verdict of its own; the analysis being cut short afterwards
+            # (anchor moved, count below the pinned minimum) must not hide it
+            if any(not o.ok for o in ctx.obs):
+                incomplete = str(e)
+                ctx.note("analysis incomplete after the reported violation(s): " + incomplete)
+            else:
+                raise
         if not ctx.obs:
             raise AnalysisBroken("no rule instance was analysed")
-        if tier == "thorough":
+        if tier == "thorough" and incomplete is None:
             thorough_extra(prop, module, ctx)
     except AnalysisBroken as e:
         msg = "ANALYSIS-BROKEN property=%s: %s" % (prop, e)
